@@ -777,3 +777,34 @@ def cold_start_threads(nproc=6, nthreads=8, seed=0):
     finally:
         import shutil
         shutil.rmtree(d, ignore_errors=True)
+
+
+def bip85_spellings(seed_hex="5e" * 64):
+    """One BIP85 object answers a fixed list of requests written in Python's equivalent call spellings, with values that
+    coincide across parameters (hex(num_bytes=32) / hex(index=32), ...), in two orders; every answer is compared with the
+    answer of a fresh wallet asked only that.  Raises Mismatch."""
+    from btc_hd_wallet import PaperWallet
+    calls = [("hex(num_bytes=32)", lambda b: b.hex(num_bytes=32)), ("hex(index=32)", lambda b: b.hex(index=32)),
+             ("hex(20, 40)", lambda b: b.hex(20, 40)), ("hex(index=20, num_bytes=40)", lambda b: b.hex(index=20, num_bytes=40)),
+             ("hex(40, 20)", lambda b: b.hex(40, 20)), ("pwd(pwd_len=21)", lambda b: b.pwd(pwd_len=21)), ("pwd(index=21)", lambda b: b.pwd(index=21)),
+             ("pwd(30, 40)", lambda b: b.pwd(30, 40)), ("pwd(index=30, pwd_len=40)", lambda b: b.pwd(index=30, pwd_len=40)),
+             ("bip39_mnemonic(12, 24)", lambda b: b.bip39_mnemonic(12, 24)),
+             ("bip39_mnemonic(index=12, word_count=24)", lambda b: b.bip39_mnemonic(index=12, word_count=24)),
+             ("bip39_mnemonic(word_count=24)", lambda b: b.bip39_mnemonic(word_count=24)), ("bip39_mnemonic(index=24)", lambda b: b.bip39_mnemonic(index=24)),
+             ("wif(1)", lambda b: b.wif(1)), ("wif(index=1)", lambda b: b.wif(index=1)), ("xprv()", lambda b: b.xprv()), ("xprv(0)", lambda b: b.xprv(0)),
+             ("wif()", lambda b: b.wif()), ("hex()", lambda b: b.hex()), ("pwd()", lambda b: b.pwd())]
+    ref = {}
+    for name, f in calls:
+        ref[name] = f(PaperWallet.from_bip39_seed_hex(seed_hex).bip85)
+    n = 0
+    for order in (calls, list(reversed(calls)), calls[1::2] + calls[::2]):
+        shared = PaperWallet.from_bip39_seed_hex(seed_hex).bip85
+        for name, f in order + order:
+            try:
+                got = f(shared)
+            except Exception as ex:
+                raise Mismatch("purity", "bip85.%s on an object that answered other requests before raised %r" % (name, ex))
+            n += 1
+            if got != ref[name]:
+                raise Mismatch("purity", "bip85.%s on an object that answered other requests before differs from a fresh wallet's answer" % name)
+    return n
